@@ -31,6 +31,7 @@ func allInstances() []*Instance {
 	regC07(add, p)
 	regC08(add, p)
 	regC15(add, p)
+	regC01(add, p)
 	return all
 }
 
@@ -287,5 +288,19 @@ func regC15(add addFn, p pFn) {
 			Bound: "2 credentials, the first a X-CACHECONF configuration entry"})
 		add(&Instance{Property: "C15", Name: "writer-v" + itoa(v) + "-c2", Entry: "credentials.VH_C15_IndependentWriter", Params: p("version", v, "creds", 2, "comps", 2, "slen", 2, "klen", 4, "addrs", 2, "tlen", 4, "hdr", 2, "conf", 2), Tier: "thorough", Reach: []string{"parsed", "done"}, TimeoutS: 1500,
 			Bound: "2 credentials (second a configuration entry), 0..2 components, 2-byte strings, 4-byte keys, 0..2 addresses/authdata, v4 header with 2 fields"})
+	}
+}
+
+var c01Stubs = []string{"lineartime", "decryptstub", "asn1havoc", "pacstub"}
+
+func regC01(add addFn, p pFn) {
+	for _, v := range []struct {
+		name                                string
+		entries, override, pac, prepop, seq int
+		tier                                string
+	}{{"base", 1, 0, 0, 0, 1, "quick"}, {"override", 1, 1, 0, 0, 1, "quick"}, {"pac", 1, 0, 1, 0, 1, "quick"}, {"prepopulated", 1, 0, 0, 1, 1, "quick"}, {"e2-seq2", 2, 0, 0, 0, 2, "thorough"}} {
+		add(&Instance{Property: "C01", Name: "verify-" + v.name, Entry: "service.VH_C01_VerifyAPREQ", Params: p("entries", v.entries, "override", v.override, "pac", v.pac, "prepopulated", v.prepop, "maxseq", v.seq, "maxstr", 1, "maxbits", 4),
+			Stubs: c01Stubs, Logic: "QF_UFBV", Tier: v.tier, Replay: "stubbed", Reach: []string{"accepted", "rejected"}, TimeoutS: 1500,
+			Bound: "keytab entries as given, 1-byte names, ticket sname 1..2 components, decoded sequences (addresses, authorization data, name components) of 0..maxseq elements, strings 0..1 bytes, flags 0..4 bytes, skew in (0, 2^50 ns), clock 1970..2262, all integers full range"})
 	}
 }
